@@ -1,1 +1,183 @@
-//! harnesses for c19 (filled in below)
+//! C19 — no panic, no overflow, no out-of-bounds, bounded loops for the kernels over
+//! UNRESTRICTED inputs (every f64 bit pattern, any slice length). No functional assertion:
+//! Kani's built-in checks and the unwinding assertions decide the claim.
+
+use crate::util::*;
+use delaunay::core::util::hilbert::{hilbert_index, hilbert_indices_prequantized};
+use delaunay::core::vertex::Vertex;
+use delaunay::geometry::kernel::{FastKernel, Kernel, RobustKernel};
+use delaunay::geometry::point::Point;
+use delaunay::geometry::predicates::{insphere, insphere_lifted, simplex_orientation};
+use delaunay::geometry::traits::coordinate::Coordinate;
+use delaunay::geometry::util::conversions::{safe_coords_to_f64, safe_scalar_from_f64, safe_scalar_to_f64};
+use delaunay::geometry::util::measures::simplex_volume;
+use delaunay::verif_hooks::dt as hooks;
+use delaunay::verif_hooks::grid as ghooks;
+
+fn any_pt2() -> Point<f64, 2> {
+    Point::new([kani::any(), kani::any()])
+}
+
+fn any_pt3() -> Point<f64, 3> {
+    Point::new([kani::any(), kani::any(), kani::any()])
+}
+
+harness! {
+    // bound: FastKernel/RobustKernel orientation D=2 over 3 points of UNRESTRICTED doubles and any slice length 0..=4
+    #[kani::unwind(6)]
+    fn c19_orient2d_unrestricted() {
+        let pts = [any_pt2(), any_pt2(), any_pt2(), any_pt2()];
+        let n: usize = kani::any();
+        kani::assume(n <= 4);
+        let r = <FastKernel<f64> as Kernel<2>>::orientation(&FastKernel::new(), &pts[..n]);
+        if n != 3 {
+            assert!(r.is_err(), "wrong arity is an error");
+        }
+        if let Ok(v) = r {
+            assert!(v == -1 || v == 0 || v == 1);
+        }
+        kani::cover!(r.is_ok(), "Ok reached");
+        kani::cover!(n == 3 && r.is_err(), "Err on a 3-point input reached (non-finite coordinate)");
+        core::mem::forget(r);
+    }
+}
+
+harness! {
+    // bound: RobustKernel orientation D=2 over 3 points of UNRESTRICTED doubles
+    #[kani::unwind(6)]
+    fn c19_orient2d_robust_unrestricted() {
+        let pts = [any_pt2(), any_pt2(), any_pt2()];
+        let r = <RobustKernel<f64> as Kernel<2>>::orientation(&RobustKernel::new(), &pts);
+        if let Ok(v) = r {
+            assert!(v == -1 || v == 0 || v == 1);
+        }
+        kani::cover!(r.is_ok(), "Ok reached");
+        kani::cover!(r.is_err(), "Err reached");
+        core::mem::forget(r);
+    }
+}
+
+harness! {
+    // bound: simplex_orientation D=3 over 4 points of UNRESTRICTED doubles
+    #[kani::unwind(7)]
+    fn c19_orient3d_unrestricted() {
+        let pts = [any_pt3(), any_pt3(), any_pt3(), any_pt3()];
+        let r = simplex_orientation(&pts);
+        kani::cover!(r.is_ok(), "Ok reached");
+        kani::cover!(r.is_err(), "Err reached");
+        core::mem::forget(r);
+    }
+}
+
+harness! {
+    // bound: insphere + insphere_lifted D=2 over UNRESTRICTED doubles (3 simplex points + query)
+    #[kani::unwind(7)]
+    fn c19_insphere2d_unrestricted() {
+        let pts = [any_pt2(), any_pt2(), any_pt2()];
+        let q = any_pt2();
+        let r = insphere(&pts, q);
+        let r2 = insphere_lifted(&pts, q);
+        kani::cover!(r.is_ok(), "insphere Ok reached");
+        kani::cover!(r.is_err(), "insphere Err reached");
+        kani::cover!(r2.is_ok(), "insphere_lifted Ok reached");
+        core::mem::forget(r);
+        core::mem::forget(r2);
+    }
+}
+
+harness! {
+    // bound: simplex_volume D=2 and D=3 over UNRESTRICTED doubles
+    #[kani::unwind(7)]
+    fn c19_volume_unrestricted() {
+        let p2 = [any_pt2(), any_pt2(), any_pt2()];
+        let r2 = simplex_volume(&p2);
+        if let Ok(v) = r2 {
+            assert!(!(v < 1e-12), "a returned area is never below the degeneracy threshold");
+        }
+        let p3 = [any_pt3(), any_pt3(), any_pt3(), any_pt3()];
+        let r3 = simplex_volume(&p3);
+        kani::cover!(r2.is_ok(), "2-D Ok reached");
+        kani::cover!(r2.is_err(), "2-D Err reached");
+        kani::cover!(r3.is_ok(), "3-D Ok reached");
+        core::mem::forget(r2);
+        core::mem::forget(r3);
+    }
+}
+
+harness! {
+    // bound: Point::validate / Vertex::is_valid / safe_* conversions over UNRESTRICTED doubles, D=3: refuse exactly the non-finite values
+    #[kani::unwind(6)]
+    fn c19_nonfinite_refused_3d() {
+        let c: [f64; 3] = [kani::any(), kani::any(), kani::any()];
+        let finite = c[0].is_finite() && c[1].is_finite() && c[2].is_finite();
+        let p = Point::new(c);
+        let pv = p.validate();
+        assert!(pv.is_ok() == finite, "Point::validate accepts exactly finite coordinates");
+        let v = Vertex::<f64, (), 3>::new_with_uuid(p, uuid_n(9), None);
+        let vv = v.is_valid();
+        assert!(vv.is_ok() == finite, "Vertex::is_valid refuses non-finite coordinates");
+        let sc = safe_coords_to_f64(&c);
+        assert!(sc.is_ok() == finite, "safe_coords_to_f64 refuses non-finite coordinates");
+        let s1 = safe_scalar_to_f64(c[0]);
+        assert!(s1.is_ok() == c[0].is_finite());
+        let s2 = safe_scalar_from_f64::<f64>(c[1]);
+        assert!(s2.is_ok() == c[1].is_finite());
+        kani::cover!(finite, "finite reached");
+        kani::cover!(c[2].is_nan(), "NaN reached");
+        kani::cover!(c[1].is_infinite(), "infinity reached");
+        core::mem::forget(pv);
+        core::mem::forget(vv);
+        core::mem::forget(sc);
+        core::mem::forget(s1);
+        core::mem::forget(s2);
+    }
+}
+
+harness! {
+    // bound: hilbert_indices_prequantized D=3, 2 cells of ANY u32 content, ANY u32 bits: Ok iff bits in 1..=31; no panic, loop bounded by bits
+    #[kani::unwind(34)]
+    fn c19_hilbert_prequantized_unrestricted_3d() {
+        let cells: [[u32; 3]; 2] = kani::any();
+        let bits: u32 = kani::any();
+        let r = hilbert_indices_prequantized::<3>(&cells, bits);
+        assert!(r.is_ok() == (bits >= 1 && bits <= 31));
+        kani::cover!(r.is_ok(), "Ok reached");
+        kani::cover!(r.is_err(), "Err reached");
+        core::mem::forget(r);
+    }
+}
+
+harness! {
+    // bound: morton_code D=2..3 with ANY u64 coordinates (above the quantisation range too) and the library's bits_per_coord: no panic
+    #[kani::unwind(34)]
+    fn c19_morton_unrestricted() {
+        let a: [u64; 2] = kani::any();
+        let b: [u64; 3] = kani::any();
+        let _ = hooks::morton_code::<2>(a, 32);
+        let _ = hooks::morton_code::<3>(b, 21);
+        kani::cover!(a[0] > u64::from(u32::MAX), "coordinate above the quantisation range reached");
+    }
+}
+
+harness! {
+    // bound: quantize_coords D=2 and HashGridIndex::key_for_coords D=2 over UNRESTRICTED doubles (coordinates, inverse cell, cell size): no panic
+    #[kani::unwind(5)]
+    fn c19_grid_keys_unrestricted() {
+        let c: [f64; 2] = [kani::any(), kani::any()];
+        let inv: f64 = kani::any();
+        let q = hooks::quantize_coords(&c, inv);
+        if q.is_some() {
+            assert!(c[0].is_finite() && c[1].is_finite(), "non-finite coordinates are never keyed");
+        }
+        let size: f64 = kani::any();
+        let k = ghooks::key_for_coords::<f64, 2>(size, &c);
+        if let Some(k) = k {
+            assert!(c[0].is_finite() && c[1].is_finite() && size.is_finite() && size > 0.0);
+            assert!(k[0].is_finite() && k[1].is_finite());
+        }
+        kani::cover!(q.is_some(), "quantised key reached");
+        kani::cover!(q.is_none(), "unquantisable reached");
+        kani::cover!(k.is_some(), "grid key reached");
+        kani::cover!(k.is_none(), "no grid key reached");
+    }
+}
